@@ -517,4 +517,6 @@ def run(ctx, progs):
         r5_chunk_size(ctx, P, D)
         from . import c18
         c18.r5_by_value(ctx, P, R="C10.R6")
+        from . import c05
+        c05.r3_reset(ctx, P, R="C10.R7")
     ctx.config = None
